@@ -587,3 +587,14 @@ V("sig-benign-local-for-args", ["C13"], ["SIG-COMPLETE"], "benign",
 V("sig-args-sorted-set", ["C13"], ["SIG-COMPLETE"], "fire",
   (JIT, "    if sys.platform.startswith(\"win32\"):\n        # NOTE: SOABI not defined", "    compile_args = str(sorted(set(cffi_extra_compile_args)))\n    if sys.platform.startswith(\"win32\"):\n        # NOTE: SOABI not defined"),
   (JIT, "            str(cffi_extra_compile_args)\n            + str(cffi_debug)\n            + str(sysconfig.get_config_var(\"CFLAGS\"))", "            compile_args\n            + str(cffi_debug)\n            + str(sysconfig.get_config_var(\"CFLAGS\"))"))
+
+# ---- RECON-LAWS ----------------------------------------------------------------------------------------
+RL = ["RECON-LAWS"]
+RC = "ffcx/ir/analysis/reconstruct.py"
+V("recon-product-maps-swapped", ["C01", "C04"], RL, "fire", (RC, "            ufl.utils.indexflattening.flatten_multiindex([ind[i] for i in indmap0], ist0),\n            ufl.utils.indexflattening.flatten_multiindex([ind[i] for i in indmap1], ist1),", "            ufl.utils.indexflattening.flatten_multiindex([ind[i] for i in indmap1], ist0),\n            ufl.utils.indexflattening.flatten_multiindex([ind[i] for i in indmap0], ist1),"))
+V("recon-indexsum-fastest-axis", ["C01", "C04"], RL, "fire", (RC, "            sops.append([ss[ind + j * postdim] for j in range(d)])", "            sops.append([ss[ind * d + j] for j in range(d)])"))
+V("recon-indexsum-one-term-short", ["C01", "C04"], RL, "fire", (RC, "            sops.append([ss[ind + j * postdim] for j in range(d)])", "            sops.append([ss[ind + j * postdim] for j in range(d - 1)])"))
+V("recon-division-inverted", ["C01"], RL, "fire", (RC, "    return [o._ufl_expr_reconstruct_(a, b) for a in ops[0]]", "    return [o._ufl_expr_reconstruct_(b, a) for a in ops[0]]"))
+V("recon-conditional-branches-swapped", ["C01"], RL, "fire", (RC, "        sops = (ops[0][0], ops[1][i], ops[2][i])", "        sops = (ops[0][0], ops[2][i], ops[1][i])"))
+V("recon-sum-benign-index-loop", ["C01"], RL, "benign", (RC, "    return [o._ufl_expr_reconstruct_(a, b) for a, b in zip(ops[0], ops[1])]", "    return [o._ufl_expr_reconstruct_(ops[0][k], ops[1][k]) for k in range(len(ops[0]))]"))
+V("recon-dispatch-sum-to-product", ["C01"], RL, "fire", (RC, "    ufl.classes.Sum: handle_sum,", "    ufl.classes.Sum: handle_product,"))
